@@ -5,6 +5,7 @@ package main
 import (
 	"fmt"
 	"runtime"
+	"strings"
 
 	"github.com/gotd/td/internal/verif/kit"
 	"github.com/gotd/td/internal/verif/lib/refformat"
@@ -73,7 +74,7 @@ func main() {
 			return res
 		})
 		ops := kit.NewFamily(c, "builder", func(w wOps) kit.Result {
-			r, err := refformat.Exec(w.Ops, w.API)
+			r, err := refformat.Exec(expand(w.Ops), w.API)
 			if err != nil {
 				return kit.Bad("harness-error", "%v", err)
 			}
@@ -136,6 +137,27 @@ var (
 	twoStrings = []string{"a", "a "}
 )
 
+// expand replaces the nesting macros by primitive operations: "N:s" = an outer token around s plus an inner
+// token around a second s (the inner entity is applied first and has the larger offset); "M:s" = both tokens
+// opened at the same place (equal offsets, the shorter inner entity first). These are the shapes token-style
+// formatting (and the HTML parser) produce; as single letters of the alphabet they are reachable within the depth bound.
+func expand(ops []string) []string {
+	var out []string
+	for _, op := range ops {
+		switch {
+		case strings.HasPrefix(op, "N:"):
+			s := op[2:]
+			out = append(out, "O", "W:"+s, "O", "W:"+s, "A", "A")
+		case strings.HasPrefix(op, "M:"):
+			s := op[2:]
+			out = append(out, "O", "O", "W:"+s, "A", "W:"+s, "A")
+		default:
+			out = append(out, op)
+		}
+	}
+	return out
+}
+
 func alphabet() []string {
 	var ops []string
 	for _, s := range allStrings {
@@ -145,7 +167,7 @@ func alphabet() []string {
 	for _, s := range twoStrings {
 		ops = append(ops, "G:"+s)
 	}
-	return append(ops, "O", "A", "B")
+	return append(ops, "O", "A", "B", "N:a", "M:a")
 }
 
 // enumerate calls emit for every valid operation sequence of exactly the given length.
